@@ -1,16 +1,18 @@
-"""Sidecar contracts: the random k-CNF / k-XOR generators and the clause sampler (C13, C10).
+"""Sidecar contracts: the random k-CNF / k-XOR generators, both samplers and the dense clause enumeration (C13, C10).
 
 PROVED for all k, n, m and EVERY outcome of the random generator:
-  * sample_clauses (sparse rejection sampling with a seen-set, then the dense fallback): m pairwise distinct clauses, each over
-    k distinct variables of 1..n (increasing) and compatible with the planted assignments; ValueError exactly when fewer
-    than m such clauses exist (counting lemma: pairwise distinct valid clauses cannot outnumber the valid clauses);
-  * RandomKCNF: exactly n variables, exactly those m clauses, well formed; ValueError exactly for a negative argument, k > n
-    or m above the number of compatible clauses;
-  * RandomKXOR: exactly n variables; the satisfying assignments are the solutions of the sampled linear system; same refusals.
-ASSUMED: clause_satisfied is a pure test (psat), all_clauses enumerates each compatible clause once (navail_p of them),
-the parity sampler (sample_parities) - all decided by the bounded tier of C13 (small scope, scripted RNG).
+  * sample_clauses / sample_parities (sparse rejection sampling with a seen-set, then the dense fallback): m pairwise distinct
+    clauses (parities), each over k distinct variables of 1..n (increasing; a parity with a bit) and compatible with the planted
+    assignments; ValueError exactly when fewer than m exist (counting lemma: pairwise distinct valid items cannot outnumber them);
+  * all_clauses: the filtered product of the k-subsets of 1..n and the sign patterns - every compatible clause exactly once (Lean);
+  * RandomKCNF: exactly n variables, exactly those m clauses, well formed; RandomKXOR: exactly n variables, exactly m such parities,
+    and the satisfying assignments are the solutions of that linear system; ValueError exactly for a negative argument, k > n or
+    m above the number of compatible clauses (parities).
+ASSUMED: clause_satisfied / parity_satisfied are pure tests (psat / psatx; no exception for total planted assignments),
+all_good_parities enumerates each compatible parity once - decided by the bounded tier of C13 (small scope, scripted RNG).
 """
 R = 'cnfgen/families/randomformulas.py'
+X_ = 'cnfgen/families/randomkxor.py'
 
 CLASSMODELS = {}
 
@@ -61,32 +63,46 @@ CONTRACTS = {
                     'cdistinct(result._clauses)', 'cvalid(k, n, result._clauses)',
                     'k <= n', 'k >= 0', 'n >= 0', 'm >= 0'],
     },
-    # ---- random k-XOR: the same shape over the parity sampler
-    ('cnfgen/families/randomkxor.py', 'sample_parities'): {
-        'assumed': 'sampler contract: exactly m parities (variables 1..n, no zero, right-hand side 0/1), or ValueError iff fewer than m are '
-                   'compatible with the planted assignments; decided by the bounded tier of C13',
+    # ---- random k-XOR.  A parity (X, b) is kept as the augmented list X + [b]; lists of parities as sequences of those.
+    (X_, 'parity_satisfied'): {
+        'assumed': 'parity_satisfied(X, b, assignments) is a pure test: psatx(X + [b]); for TOTAL planted assignments (the scope of C13) it does not raise',
+        'params': {'X': 'iseq', 'b': 'int', 'assignments': 'any'}, 'returns_expr': 'psatx(isnoc(X, b))'},
+    (X_, 'all_good_parities'): {
+        'assumed': 'all_good_parities enumerates, once each, exactly the k-parities over 1..n compatible with the planted assignments: navail_x(k, n) of them '
+                   '(decided by the bounded tier of C13)',
+        'params': {'k': 'int', 'n': 'int', 'planted_assignments': 'any'}, 'returns': 'paritylist',
+        'ensures': ['cdistinct(paug(result))', 'cvalidx(k, n, paug(result))', 'clen(paug(result)) == navail_x(k, n)']},
+    # the parity sampler: m pairwise distinct parities, each on k distinct variables of 1..n with a bit, compatible with the planted
+    # assignments, for EVERY outcome of the random generator; ValueError exactly when fewer than m exist
+    (X_, 'sample_parities'): {
+        'property': ['C13'],
         'params': {'k': 'int', 'n': 'int', 'm': 'int', 'planted_assignments': 'any'},
         'requires': ['0 <= k', 'k <= n', 'm >= 0'],
+        'locals': {'sampled_list': 'paritylist', 'sampled_set': 'seqset'},
         'raises': {'ValueError': 'm > navail_x(k, n)'},
         'returns': 'paritylist',
-        'ensures': ['clen(pxs(result)) == m', 'cmaxabs(pxs(result)) <= n', 'not chaszero(pxs(result))',
-                    'forall(lambda j: implies(0 <= j and j < m, pbs(result)[j] == 0 or pbs(result)[j] == 1))'],
+        'loops': {0: {'inv': ['cdistinct(paug(sampled_list))', 'cvalidx(k, n, paug(sampled_list))', 'sampled_set == setof(paug(sampled_list))',
+                              'clen(paug(sampled_list)) <= m', 't >= 0']}},
+        'ensures': ['clen(paug(result)) == m', 'cdistinct(paug(result))', 'cvalidx(k, n, paug(result))'],
     },
-    ('cnfgen/families/randomkxor.py', 'RandomKXOR'): {
+    (X_, 'RandomKXOR'): {
         'property': ['C13', 'C10'],
         'params': {'k': 'int', 'n': 'int', 'm': 'int', 'seed': 'none', 'planted_assignments': 'any', 'formula_class': 'class:CNF'},
         'ghost_params': {'a': 'asg'},
         'raises': {'ValueError': 'n < 0 or m < 0 or k < 0 or k > n or m > navail_x(k, n)'},
-        'loops': {0: {'ghost_at_entry': {'S': 'pxs(_iter)', 'B': 'pbs(_iter)'},
+        'loops': {0: {'ghost_at_entry': {'S': 'paug(_iter)'},
                       'inv': ['F._numvar == n', 'n >= 0', 'cmaxabs(F._clauses) <= n', 'not chaszero(F._clauses)',
-                              'cmaxabs(S) <= n', 'not chaszero(S)', 'clen(S) == m',
-                              'forall(lambda j: implies(0 <= j and j < m, B[j] == 0 or B[j] == 1))',
+                              'clen(S) == m', 'cdistinct(S)', 'cvalidx(k, n, S)',
                               # the satisfying assignments are the solutions of the linear system sampled so far
-                              'sat(a, F._clauses) == forall(lambda j: implies(0 <= j and j < _it, (count(a, cget(S, j)) % 2 == 1) == (B[j] == 1)))'],
+                              'sat(a, F._clauses) == forall(lambda j: implies(0 <= j and j < _it, '
+                              '(count(a, ifront(cget(S, j))) % 2 == 1) == (ilast(cget(S, j)) == 1)), lambda j: cget(S, j))'],
                       'modifies_objects': ['F'], 'modifies_fields': {'F': ['_clauses', '_numvar']}}},
         'ensures': ['result._numvar == n', 'cmaxabs(result._clauses) <= n', 'not chaszero(result._clauses)',
+                    # exactly m pairwise distinct parities on k distinct variables each, compatible with the planted assignments ...
+                    'clen(final("S")) == m', 'cdistinct(final("S"))', 'cvalidx(k, n, final("S"))',
+                    # ... and the formula holds exactly for the solutions of that linear system
                     'sat(a, result._clauses) == forall(lambda j: implies(0 <= j and j < m, '
-                    '(count(a, cget(final("S"), j)) % 2 == 1) == (final("B")[j] == 1)))',
-                    'clen(final("S")) == m', 'k <= n', 'k >= 0', 'n >= 0', 'm >= 0'],
+                    '(count(a, ifront(cget(final("S"), j))) % 2 == 1) == (ilast(cget(final("S"), j)) == 1)), lambda j: cget(final("S"), j))',
+                    'k <= n', 'k >= 0', 'n >= 0', 'm >= 0'],
     },
 }
